@@ -870,6 +870,24 @@ func runHistory(job *spec.Job) spec.Result {
 		var a *args
 		if c.SameAs != nil && *c.SameAs >= 0 && *c.SameAs < i {
 			a = built[*c.SameAs]
+			// the caller edits its own objects between the two calls (never during one)
+			for _, e := range c.EditSizes {
+				if a.sizes == nil {
+					break
+				}
+				if e.W < 0 {
+					delete(a.sizes, e.ID)
+				} else {
+					a.sizes[e.ID] = graph.Size{W: e.W, H: e.H}
+				}
+			}
+			if len(c.EditEdges) == len(a.src) {
+				for x := range c.EditEdges {
+					if len(c.EditEdges[x]) == len(a.src[x]) {
+						copy(a.src[x], c.EditEdges[x])
+					}
+				}
+			}
 			a.snapshot()
 		} else {
 			var err error
